@@ -187,3 +187,23 @@ func VerifHarness_C18_MonitorSameIdentity() {
 	verifAssert(n == 1, "C18: one identity, one series")
 	verifReach("monitored")
 }
+
+// percentiles on a grid including the end points, for histograms filled from a few symbolic
+// bucket choices: cheap (no floating-point solving) and covers p = 0 and p = 100
+func VerifHarness_C18_PercentileGrid() {
+	h := NewHistogram("h", nil)
+	vals := []float64{0.05, 0.7, 3, 40, 700, 20000}
+	n := verifIntRange("n", 1, 3)
+	for i := 0; i < n; i++ {
+		h.Observe(vals[verifIntRange("bucket", 0, len(vals)-1)])
+	}
+	grid := []float64{0, 1, 25, 50, 75, 90, 99, 99.9, 100}
+	prev := h.Percentile(grid[0])
+	for _, p := range grid[1:] {
+		cur := h.Percentile(p)
+		verifAssert(prev <= cur, "C18: percentiles never decrease as the percentile grows")
+		prev = cur
+	}
+	verifAssert(h.Count() == int64(n), "C18: a histogram reports exactly as many observations as were made")
+	verifReach("observed")
+}
